@@ -494,6 +494,29 @@ static Result exec_c10(MVal& plan, Stats& st) {
             c.tag = fmt + "." + n.kind + ".limit" + std::to_string(lim) + (delta < 0 ? "-1" : delta == 0 ? "" : "+1"); c.exp = 0;
             cases.push_back(c);
         }
+        if (fmt == "ubjson") {
+            // UBJSON containers announcing (or holding) more than max_items are refused; exactly max_items is accepted
+            for (int m : {0, 1, 2, 3, 7, 64, 300}) for (int delta = -1; delta <= 1; ++delta) {
+                long nitems = (long)m + delta; if (nitems < 0) continue;
+                std::string cnt = nitems < 128 ? std::string("i") + (char)nitems : std::string("I") + (char)(nitems >> 8) + (char)(nitems & 0xff);
+                struct V { const char* name; std::string bytes; };
+                std::vector<V> vs = {
+                    {"counted_array", "[#" + cnt + rep("Z", (size_t)nitems)},
+                    {"plain_array", "[" + rep("Z", (size_t)nitems) + "]"},
+                    {"typed_array", "[$i#" + cnt + rep("\x05", (size_t)nitems)},
+                    {"counted_object", "{#" + cnt + rep(std::string("i\x01" "aZ", 4), (size_t)nitems)},
+                    {"plain_object", "{" + rep(std::string("i\x01" "aZ", 4), (size_t)nitems) + "}"},
+                };
+                for (auto& v : vs) {
+                    C10Case c; c.opts = MVal::obj(); c.opts.set("max_items", MVal::integer(m));
+                    c.B = v.bytes; c.expect = delta > 0 ? 1 : 0; c.exp = 0;
+                    c.tag = std::string("ubjson.max_items.") + v.name + ".limit" + std::to_string(m) + (delta < 0 ? "-1" : delta == 0 ? "" : "+1");
+                    cases.push_back(c);
+                }
+            }
+        }
+    } else if (kind == "enc_limit") {
+        // replay of one encoder-limit case: handled below
     } else {
         // claim-and-starve: a head announcing 2^exp items/bytes followed by `tail` bytes, then end of file
         auto& cs = claims();
@@ -530,8 +553,8 @@ static Result exec_c10(MVal& plan, Stats& st) {
             Outcome out = R.exec(m, d);
             R.c05_flags(out, m, d);
             bool ok = out.error.empty();
-            if (R.res.ok && c.expect == 0 && !ok) R.fail("limit-rejects-within", c.tag + ": input within max_nesting_depth is refused (" + out.error + ")", m, d);
-            if (R.res.ok && c.expect == 1 && ok) R.fail("limit-accepts-beyond", c.tag + ": input nested deeper than max_nesting_depth is accepted", m, d);
+            if (R.res.ok && c.expect == 0 && !ok) R.fail("limit-rejects-within", c.tag + ": input within the limit is refused (" + out.error + ")", m, d);
+            if (R.res.ok && c.expect == 1 && ok) R.fail("limit-accepts-beyond", c.tag + ": input beyond the limit is accepted", m, d);
             if (R.res.ok && out.peak > Meter::SLACK + Meter::FACTOR * (c.B.size() + (d.kind == "contig" ? 0 : d.chunk)))
                 R.fail("memory-follows-claim", c.tag + ": peak " + std::to_string(out.peak) + " bytes while decoding " + std::to_string(c.B.size()) + " supplied bytes" + (c.exp ? " that claim 2^" + std::to_string(c.exp) : std::string()), m, d);
             if (c.expect >= 0) st.inc("limit_checks"); else { st.inc("claim_checks"); st.inc("faults.claim_and_starve_fired"); }
@@ -540,6 +563,37 @@ static Result exec_c10(MVal& plan, Stats& st) {
             if (!R.res.ok) {
                 plan.set("check", MVal::str("c10")); plan.set("kind", MVal::str(kind)); plan.set("options", c.opts);
                 plan.set("expect", MVal::integer(c.expect)); plan.set("tag", MVal::str(c.tag)); plan.set("exp", MVal::uinteger(c.exp));
+                return R.res;
+            }
+        }
+    }
+    // encoders enforce the same limit on what they are asked to write
+    if (R.res.ok && (kind == "limits" || kind == "enc_limit") && R.api.encoder_nest) {
+        static const int limits[] = {0, 1, 2, 3, 7, 64, 1024};
+        struct EC { int ck; size_t depth; int lim; int expect; };
+        std::vector<EC> ecs;
+        if (kind == "enc_limit") ecs.push_back(EC{(int)plan.geti("ckind"), (size_t)plan.getu("depth"), (int)plan.geti("limit"), (int)plan.geti("expect")});
+        else if (!plan.has("input_hex")) for (int ck = 0; ck < 3; ++ck) for (int lim : limits) for (int delta = -1; delta <= 1; ++delta) { long d = (long)lim + delta; if (d < 1) continue; ecs.push_back(EC{ck, (size_t)d, lim, delta > 0}); }
+        for (auto& e : ecs) {
+            if (!R.want()) continue;
+            uint64_t blocks0 = ledger::live_blocks();
+            Outcome out = R.api.encoder_nest(e.ck, e.depth, e.lim);
+            uint64_t own = 0; for (const std::string* sp : {&out.events, &out.error, &out.violation, &out.vdetail}) if (sp->capacity() > 15) ++own;
+            bool leaked = ledger::live_blocks() != blocks0 + own;
+            st.inc("executions"); st.inc("exec.encoder_nest"); st.inc("limit_checks");
+            std::string tag = fmt + ".encoder." + (e.ck == 0 ? "array" : e.ck == 1 ? "object" : "mixed") + ".limit" + std::to_string(e.lim) + " depth " + std::to_string(e.depth);
+            bool ok = out.error.empty();
+            std::string cls, msg;
+            if (!out.violation.empty()) { cls = out.violation; msg = out.vdetail; }
+            else if (!e.expect && !ok) { cls = "encoder-limit-rejects-within"; msg = tag + ": refused (" + out.error + ")"; }
+            else if (e.expect && ok) { cls = "encoder-limit-accepts-beyond"; msg = tag + ": written without error"; }
+            if (cls.empty() && leaked) { cls = "leak"; msg = tag + ": blocks still allocated after the encoder was destroyed"; }
+            st.nontrivial(mix3(fnv1a(tag), (uint64_t)e.lim, e.depth));
+            if (!cls.empty()) {
+                R.res.fail("c10." + cls + "." + fmt + ".encoder", msg);
+                plan.erase("sub"); plan.erase("only_exec");
+                plan.set("check", MVal::str("c10")); plan.set("kind", MVal::str("enc_limit")); plan.set("ckind", MVal::integer(e.ck));
+                plan.set("depth", MVal::uinteger(e.depth)); plan.set("limit", MVal::integer(e.lim)); plan.set("expect", MVal::integer(e.expect));
                 return R.res;
             }
         }
